@@ -650,6 +650,7 @@ func doCheck(b builds, cfg tierCfg) int {
 	if viol != nil {
 		logf("violation observed: class=%s build=%s proc=%d run=%d; confirming and minimising", viol.Class, viol.Build, viol.Proc, viol.Run.Index)
 		final = confirmAndMinimise(b, cfg, viol)
+		final.Trace = renderTrace(b, final)
 		if kf := known.match(final); kf != nil {
 			fmt.Printf("KNOWN-FINDING: property=%s %s\n", propID, kf.Description)
 		} else {
